@@ -152,7 +152,8 @@ fn step_check(
     }
     let total_cap: usize = refs.iter().map(|r| r.cap).sum();
     if len() > total_cap { fails.push(format!("holds {} entries, capacity {}", len(), total_cap)); }
-    for (ek, ev) in new_cb { obs.push(ek as i128); obs.push(ev as i128); }
+    // callbacks on an explicit remove/clear are not constrained by the property: keep them out of the model comparison too
+    if c != 2 && c != 4 { for (ek, ev) in new_cb { obs.push(ek as i128); obs.push(ev as i128); } }
     obs
 }
 
